@@ -6,7 +6,7 @@
     vector [ps_last] (Rust's [tok()] yields it for every index past the end).  [current >= tokens.len()] is
     [ps_rest = []].  The file system is the parameter [fs]; the working directory is [cwd]. *)
 From Pakhi Require Import Base Float64 Syntax Tables Lexer.
-Open Scope N_scope.
+Local Open Scope N_scope.
 
 Record pstate := mkPs {
   ps_rest : list token;
@@ -74,7 +74,7 @@ Definition at_end (s : pstate) : bool := match ps_rest s with [] => true | _ => 
 Definition hk (s : pstate) : tkind := t_kind (head s).
 Definition tpos (t : token) : pos := mkPos (t_line t) (t_file t).
 
-Definition unexpected {A} : outcome A := Err (mkErr EUnexpected 0 [] TagGeneric).
+Definition unexpected {A} : outcome A := Err (mkErr0 EUnexpected 0 [] TagGeneric).
 
 (* get_token_line_file_name(i) for a token already in hand *)
 Definition pos_tok (s : pstate) (t : token) : outcome pos := if at_end s then unexpected else Ok (tpos t).
@@ -86,7 +86,7 @@ Definition pos_prev (s : pstate) : outcome pos :=
   else match ps_prev s with Some t => Ok (tpos t) | None => Panic SiteUnderflow end.
 (* Err(SyntaxError(extract_err_meta()?)) *)
 Definition syntax_here {A} (s : pstate) : outcome A :=
-  if at_end s then unexpected else Err (mkErr ESyntax (t_line (head s)) (t_file (head s)) TagGeneric).
+  if at_end s then unexpected else Err (mkErr0 ESyntax (t_line (head s)) (t_file (head s)) TagGeneric).
 
 Definition binop_at (lvl : nat) (k : tkind) : option binop :=
   match lvl, k with
@@ -292,7 +292,7 @@ Fixpoint slash_prefixes (acc_rev : text) (name : text) : list text :=
   | c :: r => (if c =? c_slash then [rev acc_rev] else []) ++ slash_prefixes (c :: acc_rev) r
   end.
 
-Definition cyclic_err {A} : outcome A := Err (mkErr ERuntime 0 [] TagCyclic).
+Definition cyclic_err {A} : outcome A := Err (mkErr0 ERuntime 0 [] TagCyclic).
 
 (* named_module_import, entered with head = the import name token *)
 Fixpoint import_path_rest (fuel : nat) (acc : text) (s : pstate) : outcome (text * pstate) :=
@@ -322,7 +322,7 @@ Definition named_module_import (fuel : nat) (alias : text) (s : pstate) : outcom
   if existsb (text_eqb module_file) importing then cyclic_err else
   let mods := (alias, module_file) :: ps_mods s1 in
   match fs final with
-  | None => Err (mkErr ERuntime 0 [] TagGeneric)
+  | None => Err (mkErr0 ERuntime 0 [] TagGeneric)
   | Some src =>
       do toks <- tokenize src final;
       do toks <- expand_dirname toks final;
@@ -375,7 +375,7 @@ Fixpoint pstmt (fuel : nat) (s : pstate) {struct fuel} : outcome (fstmt * pstate
             | _ =>
                 if at_end s3 then unexpected
                 else match ps_prev s3 with
-                     | Some t => Err (mkErr ESyntax (t_line t) (t_file t) TagGeneric)
+                     | Some t => Err (mkErr0 ESyntax (t_line t) (t_file t) TagGeneric)
                      | None => Panic SiteUnderflow
                      end
             end
